@@ -51,6 +51,8 @@ def oracle(rec):
 def run(rep, tier, seed):
     n = size(tier, 100, 2000)
     cases = [fol.gen_c02_case(random.Random(sub_seed(seed, "c02", k)), interp=(k % 3 != 2)) for k in range(n)]
+    # facts arriving between two inference calls for rows the join had materialised at a CLOSED default
+    cases += [fol.gen_c02_late_case(random.Random(sub_seed(seed, "c02late", k))) for k in range(12)]
     recs, first_dis = streams.run_fol_stream(rep, "fol-qf", cases, {"tables", "reported", "contra"}, fn="run_c02")
     eq = looser = 0
     for r in recs:
@@ -89,6 +91,8 @@ def replay(obj):
     import engine
     prog = streams.fix_prog(obj["replay"]["program"])
     prog["facts"] = [tuple(f) for f in prog["facts"]]
+    if prog.get("late_facts"):
+        prog["late_facts"] = [tuple(f) for f in prog["late_facts"]]
     rec = engine.run_cases("fol", "run_c02", [prog], jobs=1)[0]
     rec["safe_upto"] = len(rec["lines"])
     bad = oracle(rec)
